@@ -425,10 +425,20 @@ func runC18(c *mon.Ctx) {
 			}
 			var p mmc.Message
 			if cmd%3 == 0 {
-				// a long-lived receiver that parsed other (hand-written) messages before: a response and a data command
-				p.Parse([]byte{0xF0, 0x7F, dev, 0x07, 0x01, 0x02, 0x03, 0xF7})
-				p.Parse([]byte{0xF0, 0x7F, dev, 0x06, 0x44, 0x06, 0x01, 1, 2, 3, 4, 5, 0xF7})
-				p.Parse([]byte{0xF0, 0x7F, dev, 0x07, 0xF7})
+				// a long-lived receiver that parsed other (hand-written) messages before: responses and a data command,
+				// in every order (what was parsed LAST differs: a response with data, a locate command, an empty response)
+				pre := [][]byte{
+					{0xF0, 0x7F, dev, 0x07, 0x01, 0x02, 0x03, 0xF7},
+					{0xF0, 0x7F, dev, 0x06, 0x44, 0x06, 0x01, 1, 2, 3, 4, 5, 0xF7},
+					{0xF0, 0x7F, dev, 0x07, 0xF7},
+				}
+				rot := (cmd/3 + int(dev)) % 3
+				for k := 0; k < 3; k++ {
+					p.Parse(pre[(k+rot)%3])
+				}
+				if (cmd/3+int(dev))%2 == 0 {
+					p.Parse(mmc.GoTo{DeviceID: dev, Hour: 1, Minute: 2, Second: 3, Frame: 4, SubFrame: 5}.SysEx())
+				}
 				c.Count("reused_receivers", 1)
 			}
 			err := p.Parse(bt)
